@@ -33,6 +33,7 @@ ASSUMPTIONS = [
     "spatial exact: all leg lengths and ds are dyadic rationals (axis-parallel or 3-4-5 legs) so floor(L/ds) is decided exactly; "
     "spatial float: cases with |L/ds - round(L/ds)| < 1e-9 are outside the domain (count decided by rounding)",
     "at an abscissa that coincides with a repeated fix either copy's height and timestamp is accepted",
+    "spatial timestamps: +-1 ms + 5e-3 ms (float seconds ~1.6e9 weighted by two rounded weights) + time slope x abscissa uncertainty",
 ]
 
 BASE_TOL = 1e-9
@@ -366,7 +367,7 @@ def _judge_spatial(case, res, T, S, ds, count, eps, what):
         for c in cands:
             okp = abs(g[0] - c[0]) <= BASE_TOL * scale + eps and abs(g[1] - c[1]) <= BASE_TOL * scale + eps
             okz = abs(g[2] - c[2]) <= BASE_TOL * scale + lipz * eps
-            okt = abs(g[3] - c[3]) <= 1.0 + 1e-3 + lipt * eps
+            okt = abs(g[3] - c[3]) <= 1.0 + 5e-3 + lipt * eps
             if okp and okz and okt:
                 best = c
                 break
